@@ -140,8 +140,8 @@ func (l AbstractListSchema[ItemType]) ValidateCompatibility(typeOrData any) erro
 
 func (l AbstractListSchema[ItemType]) validateCompatibilityIn(typeOrData any, compared comparedObjects) error {
 	// Check if it's a schema.Type. If it is, verify it. If not, verify it as data.
-	value := reflect.ValueOf(typeOrData)
-	valueKind := reflect.Indirect(value).Kind()
+	value := reflect.Indirect(reflect.ValueOf(typeOrData))
+	valueKind := value.Kind()
 	// Check if it's just a list, if so, validate the individual items.
 	if valueKind == reflect.Slice {
 		// We don't know the type of the list, so just use reflection to get any values.
